@@ -21,7 +21,7 @@ LIMITS = [0, 1, 125, 126, 1000, 65535, 65536, 100000]
 
 
 def plan(tier, seed):
-    n = 500 if tier == "quick" else 4000
+    n = 500 if tier == "quick" else 10000
     jobs = []
     for i, fw in enumerate(("twisted", "asyncio")):
         for sh in range(2 if tier == "quick" else 6):
